@@ -61,6 +61,7 @@ type orderFlow struct {
 	fieldLoads    map[*types.Var][]ssa.Value
 	callers       map[*ssa.Function][]ssa.CallInstruction
 	doneIter      map[*ssa.BasicBlock]bool
+	fieldTaintFns map[*types.Var][]*ssa.Function
 	nIter, nSorts int
 }
 
@@ -130,6 +131,10 @@ func (of *orderFlow) analyseIteration(it *iteration) {
 		c.Ob(of.rule, fname+":"+what, it.pos, fname, core.Info, "unordered iteration not reachable from the listed commands (fetch, register, completion, debug String methods)")
 		return
 	}
+	if of.isDayProcessorLoop(it) {
+		c.Ob(of.rule, fname+":"+what, it.pos, fname, core.Info, "the day processor's loop over a per-kind slice: its callbacks are analysed per Journal.Process call, stage by stage (A-stage)")
+		return
+	}
 	if why := of.sanitisedByProcess(it); why != "" {
 		of.nIter++
 		c.Ob(of.rule, fname+":"+what, it.pos, fname, core.Discharged, why)
@@ -161,16 +166,21 @@ func (of *orderFlow) analyseIteration(it *iteration) {
 		if e.kind == "unknown-call" {
 			v = core.Undecided
 		}
-		c.Ob(of.rule, key, e.pos, fname, v, what+": "+e.detail+" [in "+originName(e.fn)+" at "+p.Pos(e.pos)+"]")
+		src := what
+		if it.why != "" {
+			src += " (" + it.why + ")"
+		}
+		c.Ob(of.rule, key, e.pos, fname, v, src+": "+e.detail+" [in "+originName(e.fn)+" at "+p.Pos(e.pos)+"]")
 	}
 	for _, t := range res.taints {
 		switch {
 		case t.phi != nil:
 			of.taint(t.phi, "filled in "+what+" in "+fname)
 		case t.field != nil:
-			of.taintField(t.field, "appended to in "+what+" in "+fname)
+			of.fieldTaintFns[t.field] = append(of.fieldTaintFns[t.field], t.fn)
+			of.taintField(t.field, "appended to in "+what+" in "+originName(t.fn))
 		case t.cell != nil:
-			of.taintCell(t.cell, "appended to in "+what+" in "+fname)
+			of.taintCell(t.cell, "appended to in "+what+" in "+originName(t.fn))
 		}
 	}
 }
@@ -676,7 +686,8 @@ func RuleAOrder(c *core.Ctx) {
 	}
 	scope := p.ReachLexical(entries...)
 	of := &orderFlow{oa: oa, c: c, rule: rule, scope: scope, tainted: map[ssa.Value]string{}, fields: map[*types.Var]string{},
-		fieldLoads: map[*types.Var][]ssa.Value{}, callers: map[*ssa.Function][]ssa.CallInstruction{}, doneIter: map[*ssa.BasicBlock]bool{}}
+		fieldLoads: map[*types.Var][]ssa.Value{}, callers: map[*ssa.Function][]ssa.CallInstruction{}, doneIter: map[*ssa.BasicBlock]bool{},
+		fieldTaintFns: map[*types.Var][]*ssa.Function{}}
 	var all []*ssa.Function
 	for _, fn := range p.SrcFuncs() {
 		all = append(all, fn)
@@ -713,6 +724,8 @@ func RuleAOrder(c *core.Ctx) {
 			of.analyseIteration(it)
 		}
 	}
+	of.run()
+	of.analysePipelines()
 	of.run()
 	c.Note("%s: %d unordered iterations analysed in scope, %d sorts of unordered data checked, %d unordered slice values, %d unordered fields",
 		rule, of.nIter, of.nSorts, len(of.tainted), len(of.fields))
@@ -1020,4 +1033,137 @@ func (of *orderFlow) sanitisedByProcess(it *iteration) string {
 		}
 	})
 	return result
+}
+
+// dayKindCallbacks: which Processor callbacks receive the elements of which
+// per-kind slice of Day.
+var dayKindCallbacks = map[string][]string{
+	"Prices":       {"Price"},
+	"Openings":     {"Open"},
+	"Transactions": {"Transaction", "Posting"},
+	"Assertions":   {"Assertion", "Balance"},
+	"Closings":     {"Close"},
+}
+
+func (of *orderFlow) isDayProcessorLoop(it *iteration) bool {
+	p := of.oa.p
+	proc := p.Func(pkgJournal, "Processor.Process")
+	if proc == nil || it.fn != proc {
+		return false
+	}
+	ld, ok := it.source.(*ssa.UnOp)
+	if !ok {
+		return false
+	}
+	fa, ok := ld.X.(*ssa.FieldAddr)
+	if !ok {
+		return false
+	}
+	_, isKind := dayKindCallbacks[core.FieldOf(fa).Name()]
+	return isKind && fa.X == ssa.Value(proc.Params[1])
+}
+
+// analysePipelines: for every Journal.Process call, walk the stages in order
+// and track, per per-kind slice of Day, whether some earlier stage (or this
+// stage's DayStart) appended to it in an unordered iteration. The callbacks
+// that receive the elements of such a slice are analysed as the bodies of an
+// unordered iteration; a stage whose DayEnd sorts the slice resets the state.
+func (of *orderFlow) analysePipelines() {
+	c, p := of.c, of.oa.p
+	const rule = "A-stage"
+	n := 0
+	for _, pl := range pipelines(c) {
+		if !of.inScope(pl.fn) {
+			continue
+		}
+		fname := originName(pl.fn)
+		if !pl.resolved {
+			c.Ob(rule, fname+":Process call", pl.call.Pos(), fname, core.Undecided, "processor list could not be resolved: "+pl.why)
+			continue
+		}
+		for kind, cbs := range dayKindCallbacks {
+			fv := p.Field(pkgJournal, "Day", kind)
+			if fv == nil {
+				c.Anchor(rule, "journal.Day."+kind)
+				continue
+			}
+			taintFns := map[*ssa.Function]bool{}
+			for _, f := range of.fieldTaintFns[fv] {
+				taintFns[f] = true
+			}
+			sorters := of.sortersOf(fv)
+			unordered := ""
+			for _, st := range pl.stages {
+				// taint by this stage's DayStart (runs before the day's loops)
+				for name, cb := range st.callbacks {
+					if name == "DayEnd" {
+						continue
+					}
+					for _, f := range core.WithAnon(cb) {
+						if taintFns[f] {
+							unordered = st.name() + " (" + name + ")"
+						}
+					}
+				}
+				if unordered != "" {
+					for _, cbName := range cbs {
+						cb := st.callbacks[cbName]
+						if cb == nil {
+							continue
+						}
+						n++
+						classes := make([]vclass, len(cb.Params))
+						for i := range classes {
+							classes[i] = clsElem
+						}
+						// a bound method's receiver is shared state
+						if cb.Signature.Recv() != nil && len(classes) > 0 {
+							classes[0] = clsOuter
+						}
+						res := of.oa.analyseCallee(cb, classes)
+						key := fname + ":stage " + st.name() + "." + cbName + " over Day." + kind
+						if len(res.effects) == 0 {
+							c.Ob(rule, key, cb.Pos(), fname, core.Discharged, "Day."+kind+" is a bag here (appended to in map order by stage "+unordered+"); the callback's effects are order-free")
+							continue
+						}
+						seen := map[string]bool{}
+						for _, e := range res.effects {
+							k2 := key + ":" + e.kind + " " + e.symbol
+							if seen[k2] {
+								continue
+							}
+							seen[k2] = true
+							if reason, ok := orderExceptions[originName(e.fn)+":"+e.kind+" "+e.symbol]; ok {
+								c.Ob(rule, k2, e.pos, fname, core.Discharged, "reviewed exception: "+reason)
+								continue
+							}
+							v := core.Violated
+							if e.kind == "unknown-call" {
+								v = core.Undecided
+							}
+							c.Ob(rule, k2, e.pos, fname, v, "Day."+kind+" reaches this stage in an order that depends on map iteration (appended to by stage "+unordered+"): "+e.detail+" [in "+originName(e.fn)+" at "+p.Pos(e.pos)+"]")
+						}
+						for _, t := range res.taints {
+							if t.field != nil {
+								of.fieldTaintFns[t.field] = append(of.fieldTaintFns[t.field], t.fn)
+								of.taintField(t.field, "appended to per element of the unordered Day."+kind+" in "+originName(t.fn))
+							}
+						}
+					}
+				}
+				// taint by DayEnd, sort by DayEnd
+				if cb := st.callbacks["DayEnd"]; cb != nil {
+					for _, f := range core.WithAnon(cb) {
+						if taintFns[f] {
+							unordered = st.name() + " (DayEnd)"
+						}
+					}
+				}
+				if st.ctor != nil && sorters[st.ctor] {
+					unordered = ""
+				}
+			}
+		}
+	}
+	c.Note("A-stage: %d stage callbacks analysed as bodies of an unordered iteration", n)
 }
